@@ -95,7 +95,7 @@ struct Gen {
 		}
 		// names that are plain tokens and still special: the label the writers give an unnamed objective, and what the library generates for unnamed rows / columns
 		if (m > 0 && r.chance(1, 14)) { static const char *sp[] = {"obj", "obj", "OBJ", "c1", "r_1", "c2_0", "freerow", "endrow", "stay", "boundary", "minrow", "subjectx"}; L.rows[r.below(L.rows.size())].name = sp[r.below(12)]; }
-		if (n > 0 && r.chance(1, 12)) { static const char *sp[] = {"obj", "x1", "c1", "x_2", "freedom", "free_1", "Freeze", "infty", "infinite", "minor", "maxim", "stx", "endcol", "boundsx", "integers2", "generalx", "binaryx", "max", "min", "st", "end", "bounds", "integer", "general", "binary", "subject", "to", "problem", "Maximize", "END"}; std::string nm = sp[r.below(30)];   /* plain tokens: like the writers' defaults, or beginning like a keyword of the LP format */ bool used = false; for (auto &c : L.cols) if (c.name == nm) used = true;
+		if (n > 0 && r.chance(1, 12)) { static const char *sp[] = {"obj", "x1", "c1", "x_2", "freedom", "free_1", "Freeze", "infty", "infinite", "minor", "maxim", "stx", "endcol", "boundsx", "integers2", "generalx", "binaryx", "max", "min", "st", "end", "bounds", "integer", "general", "binary", "subject", "to", "problem", "Maximize", "END", "inf", "free", "Infinity", "INF", "Free"}; std::string nm = sp[r.below(35)];   /* plain tokens: like the writers' defaults, or beginning like a keyword of the LP format */ bool used = false; for (auto &c : L.cols) if (c.name == nm) used = true;
 			if (!used) { size_t jj = r.below(L.cols.size()); L.cols[jj].name = nm;
 				/* the LP writer puts the upper half of a ranged row on a line of its own, without a label: when the row begins with this column and
 				   its coefficient is 1, the line begins with the bare name */
